@@ -1551,7 +1551,11 @@ theorem namePath_stepS {d : Bytes} (hd : d.size + 268435456 ≤ 4294967296) {f :
         have hobj7 : live s7.tree n = true := by rw [hp7.links.live]; exact hobj6
         obtain ⟨s8, e8, h8, hp8, hsl8, hr8⟩ := upd_step h7 hobj7
           (fun o => { o with infoIndex := pOpcodeTableIndex opIntMethodCall true }) (by keeps_links) Iff.rfl
-          (by dsimp only; exact info_const.2.2.2.2.2.2.2.2.2.2.2.2.2)
+          (by dsimp only; exact info_const.2.2.2.2.2.2.2.2.2.2.2.2.2) (Or.inl rfl) (fun _ => ⟨rfl, rfl⟩)
+          (fun hq => by
+            rw [hsl7] at hq
+            have : isK opIntMethodCall = true := hq
+            exact absurd this (by decide))
         refine NPs.step e8 ?_
         have hobj8 : live s8.tree n = true := by rw [hp8.links.live]; exact hobj7
         have hp68 : PayOnly n s6 s8 := hp7.trans hp8
